@@ -942,7 +942,7 @@ func Run(cfg vh.Config) (*vh.Result, error) {
 		for i := range pool {
 			pool[i] = genConfig(rng)
 		}
-		for i := 0; i < cfg.Pick(120, 4000); i++ {
+		for i := 0; i < cfg.Pick(120, 2500); i++ {
 			cases = append(cases, genCase(rng, pool))
 			r.dist.Inc("source:generated")
 		}
